@@ -27,7 +27,10 @@ def collect(res, prop, mism_path, seen=None, fmt=None):
     if not os.path.exists(mism_path):
         return seen
     for line in open(mism_path):
-        m = json.loads(line)
+        try:
+            m = json.loads(line)
+        except ValueError:
+            continue      # the harness was stopped by its watchdog in the middle of a line
         p = m.get("property", prop)
         sig = f"{p}|{m['why']}|{m['subject']}"
         if sig in seen:
